@@ -8,6 +8,7 @@ Driver for C17.  Requests (one per line):
       parse a bulk into a fresh collector (`collect`), optionally `Filter(appended)`, optionally `GroupLIDsByToken(lids)`
   `setm <dp> <ids> <positions>`            `DocsPositions.SetMultiple`
   `hist <history> <tokens> <ids>`          `run Active.empty history`, then queue of every token, position and fetch of every id
+  `conc <events> <tokens> <ids>`           `crun` of a schedule: events `|`-separated, `S<bulk>` (start) or `F<k>` (publish waiting collector k)
   `rep <interval> <idsources> <hist>`      `removeRepetitionsAdvanced`
   `merge <asc> <limit> <interval> <qprs>`  id/total/histogram part of `MergeQPRs`
 
@@ -96,6 +97,24 @@ def stepHist (h toks ids : String) : String :=
     s!"ok ids={fmtIDs a.ids} total={a.docsTotal} raw={a.docsRaw} from={a.from_} to={a.to} blocks={a.blocks.length} q={fmtList id q ";"} pos={fmtList id pos} fetch={fmtList id fe}"
   | _, _, _ => "bad-op"
 
+def parseEv (s : String) : Option Ev :=
+  match s.toList with
+  | 'S' :: rest => (parseBulk (String.ofList rest)).map Ev.start
+  | 'F' :: rest => (String.ofList rest).toNat?.map Ev.finish
+  | _ => none
+
+def stepConc (evs toks ids : String) : String :=
+  match (evs.splitOn "|").mapM parseEv, (splitList toks).mapM (fun s => hexGo s.toList), parseIDs ids with
+  | some evs, some toks, some ids =>
+    if (startedBulks evs).any bulkPanics then "panic nested-first" else
+    let s := crun ⟨Active.empty, []⟩ evs
+    let a := s.a
+    let q := toks.map fun t => fmtNats ((queue a t).eraseDups.mergeSort (· ≤ ·))
+    let pos := ids.map fun i => match a.dp.lookup i with | none => "n" | some p => toString (packDocPos p)
+    let fe := ids.map fun i => match fetch a i with | none => "n" | some d => toString d
+    s!"ok pending={s.pending.length} ids={fmtIDs a.ids} total={a.docsTotal} raw={a.docsRaw} from={a.from_} to={a.to} blocks={a.blocks.length} q={fmtList id q ";"} pos={fmtList id pos} fetch={fmtList id fe}"
+  | _, _, _ => "bad-op"
+
 end C17
 
 namespace C17R
@@ -148,6 +167,7 @@ def step (line : String) : String :=
   | ["coll", b, ms, app, lids] => C17.stepColl b ms app lids
   | ["setm", dp, ids, ps] => C17.stepSetm dp ids ps
   | ["hist", h, toks, ids] => C17.stepHist h toks ids
+  | ["conc", evs, toks, ids] => C17.stepConc evs toks ids
   | ["rep", iv, ids, hist] => C17R.stepRep iv ids hist
   | ["merge", asc, limit, iv, qs] => C17R.stepMerge asc limit iv qs
   | _ => "bad-op"
